@@ -29,12 +29,16 @@ type Plan struct {
 	Webhook     bool           `json:"webhook,omitempty"`
 	NoFaults    bool           `json:"noFaults,omitempty"`
 	Saturate    bool           `json:"saturate,omitempty"`
+	CronDupPm   int            `json:"cronDupPm,omitempty"`
+	Config      *ConfigPlan    `json:"config,omitempty"`
+	Twin        bool           `json:"twin,omitempty"`
 }
 
 type SchedOpts struct {
 	Mode     string `json:"mode"`
 	FifoBias int    `json:"fifoBias,omitempty"`
 	StallPm  int    `json:"stallPm,omitempty"`
+	APILatencyUs int `json:"apiLatencyUs,omitempty"`
 }
 
 type DynPlan struct {
